@@ -1,0 +1,22 @@
+//go:build verif
+
+package cmd
+
+// Contracts for property C15 (masking): the helper of the mask command hands its arguments to Alignment.Mask in the right positions.
+
+//@ func mask
+//@   props C15
+//@   requires al != nil && wfa(al) && owns(al) && 0 <= length && length <= 4611686018427387904 && al.length <= 4611686018427387904
+//@   requires maskreplace == "MAJ" ==> forall r, c :: 0 <= r && r < nrows(al) && 0 <= c && c < al.length ==> cell(al, r, c) < 130
+//@   assert_at github.com/evolbioinfo/goalign/align.(*align).Mask 1 : arg0 == al && arg1 == maskrefseq && arg4 == maskreplace && arg5 == masknogap && arg6 == masknoref
+//@   assert_at github.com/evolbioinfo/goalign/align.(*align).Mask 1 : !refseq ==> arg2 == old(start) && arg3 == old(length)
+// without --ref-seq coordinates: exactly Mask(maskrefseq, start, length, maskreplace, masknogap, masknoref)
+//@   ensures !refseq ==> (err != nil) == old(maskerr(al, maskrefseq, start, maskreplace, masknoref))
+//@   ensures !refseq && err == nil ==> forall r, c :: 0 <= r && r < nrows(al) && 0 <= c && c < al.length ==> cell(al, r, c) == masked(al, maskrefseq, start, length, maskreplace, masknogap, masknoref, r, c)
+// with --ref-seq coordinates: the window is first converted by RefCoordinates (c15b_rc: from the (start+1)-th to the (start+length)-th non-gap residue of the reference row)
+//@   ensures refseq && err == nil ==> exists s2, l2 :: old(c15b_rc(al, maskrefseq, start, length, s2, l2)) && (forall r, c :: 0 <= r && r < nrows(al) && 0 <= c && c < al.length ==> cell(al, r, c) == masked(al, maskrefseq, s2, l2, maskreplace, masknogap, masknoref, r, c))
+//@   ensures refseq && (!old(has(al.seqmap, maskrefseq)) || start < 0 || length <= 0) ==> err != nil
+// an error changes nothing; names, order, row storage and cached length never change
+//@   ensures err != nil ==> forall r, c :: 0 <= r && r < nrows(al) && 0 <= c && c < al.length ==> cell(al, r, c) == old(cell(al, r, c))
+//@   ensures al.length == old(al.length) && nrows(al) == old(nrows(al)) && (forall r :: 0 <= r && r < nrows(al) ==> row(al, r) == old(row(al, r)) && rowname(al, r) == old(rowname(al, r)) && sameslice(row(al, r).sequence, old(row(al, r).sequence)))
+//@   modifies mem(uint8)
